@@ -6,6 +6,7 @@ correspondence: (1) every exported constant/factory of the library vs the model'
 search:         an INDEPENDENT plain-Python reference evaluator (written from the names/docstrings) vs p(x)."""
 import datetime
 import itertools
+import math
 import os
 import json
 import operator
@@ -321,6 +322,24 @@ def search(payload):
                 break
         if len(fails) >= 5:
             break
+    # members that are themselves containers, the SAME nan object, keys with falsy / None values
+    nan_ = math.nan
+    for name, p_, x, want in (
+            ("in_p((1, 2))", SETP.in_p((1, 2)), (1, 2), True), ("in_p((1, 2))", SETP.in_p((1, 2)), 1, False), ("in_p(())", SETP.in_p(()), (), True),
+            ("in_p(frozenset({1}))", SETP.in_p(frozenset({1})), frozenset({1}), True), ("in_p(frozenset({1}))", SETP.in_p(frozenset({1})), 1, False),
+            ("not_in_p((1, 2))", SETP.not_in_p((1, 2)), (1, 2), False), ("not_in_p((1, 2))", SETP.not_in_p((1, 2)), 1, True),
+            ("in_p('ab')", SETP.in_p("ab"), "a", False), ("in_p('ab')", SETP.in_p("ab"), "ab", True),
+            ("eq_p(nan)", SP.eq_p(nan_), nan_, nan_ == nan_), ("ne_p(nan)", SP.ne_p(nan_), nan_, nan_ != nan_), ("eq_p(nan)", SP.eq_p(nan_), float("nan"), False),
+            ("ge_p(nan)", SP.ge_p(nan_), nan_, nan_ >= nan_), ("le_p(1)", SP.le_p(1), nan_, nan_ <= 1),
+            ("has_key_p('x')", SP.has_key_p("x"), {"x": None}, True), ("has_key_p('x')", SP.has_key_p("x"), {"x": 0}, True), ("has_key_p('x')", SP.has_key_p("x"), {"x": ""}, True),
+            ("has_key_p('x')", SP.has_key_p("x"), {"y": 1}, False), ("has_key_p(None)", SP.has_key_p(None), {None: 1}, True), ("has_key_p(0)", SP.has_key_p(0), {False: 1}, True),
+            ("has_length_p(0)", SP.has_length_p(0), [], True), ("has_length_p(1)", SP.has_length_p(1), [None], True), ("has_length_p(2)", SP.has_length_p(2), "ab", True),
+            ("is_empty_p", PP.is_empty_p, [None], False), ("is_empty_p", PP.is_empty_p, [0], False), ("is_not_empty_p", PP.is_not_empty_p, [""], True),
+            ("is_empty_p", PP.is_empty_p, {0: 0}, False), ("is_truthy_p", SP.is_truthy_p, [0], True), ("is_falsy_p", SP.is_falsy_p, 0.0, True)):
+        n += 1
+        got = call(p_, x)
+        if got != ("ok", want):
+            fails.append({"p": name, "returned_object": repr(p_), "x": repr(x), "implementation": repr(got), "reference": repr(("ok", want))})
     sets = [set(), {1}, {1, 2}, {2, 3}, {1, 2, 3}]
     for v in sets:
         for name, rel in (("is_subset_p", lambda x, v: x <= v), ("is_real_subset_p", lambda x, v: x < v),
@@ -333,7 +352,7 @@ def search(payload):
                     fails.append({"p": f"{name}({v!r})", "returned_object": repr(p_), "x": repr(x), "implementation": repr(got), "reference": repr(rel(set(x), v))})
                     break
     # math tests and the dict-depth comparisons
-    import math
+    pass  # (math is imported at module level)
     import operator as op2_
     for x in (0, 1.5, -2, float("inf"), float("-inf"), float("nan"), 1e308, True):
         for name, ref in (("is_finite_p", math.isfinite), ("is_inf_p", math.isinf), ("is_nan_p", math.isnan)):
